@@ -41,18 +41,19 @@ Print Assumptions C18_source_unchanged.
      all_or_nothing_law := forall … fault s w out, fs_wf s -> exists_path s newDir = false ->
        run_localize … fault s = (w, out) -> out is not Ok -> (no RemoveAll failed) ->
        exists_path (w_fs w) newDir = false.
-   PROVED part (since the repair d268200 in /repo it covers EVERY error return): whenever localize
-   RETURNS an error — for every fault position, the early ones included — newDir, which did not
-   exist before, does not exist afterwards, provided no RemoveAll call failed (a failed cleanup is a
-   second failure: out of the single-fault domain, see design.d/C18.md).
-   Missing: the exits that are not error returns (refuted_3 log.Fatalf, refuted_4 / refuted_5
-   log.Panicf).  Shapes (a) "ConfirmDir fails after Mkdir" and (b) "MkdirAll(dst) fails" were
-   refuted_1 / refuted_2 until d268200; they are now instances of this theorem. *)
+   PROVED part (after the repairs d268200 and 113a8f3): whenever localize RETURNS an error or PANICS —
+   for every fault position — newDir, which did not exist before, does not exist afterwards,
+   provided no RemoveAll call failed (a failed cleanup is a second failure: out of the single-fault
+   domain, see design.d/C18.md).
+   Missing: the process exit (refuted_3, log.Fatalf — os.Exit runs no deferred call).  Shapes (a),
+   (b) (refuted_1/_2 until d268200) and (d), (e) (refuted_4/_5 until 113a8f3) are instances of this
+   theorem now; regression examples repaired_a/_b/_d/_e in Fs/LocalizeExamples.v. *)
 Theorem C18_all_or_nothing_partial :
-  forall orc ch fuel target scope newdir fault s w,
+  forall orc ch fuel target scope newdir fault s w x,
     fs_wf s ->
+    x = XErr \/ x = XPanic ->
     exists_path s (newdir_path target newdir) = false ->
-    run_localize orc ch fuel target scope newdir fault s = (w, OExn XErr) ->
+    run_localize orc ch fuel target scope newdir fault s = (w, OExn x) ->
     (forall e, In e (w_trace w) -> ev_op e = ORemoveAll -> ev_ok e = true) ->
     exists_path (w_fs w) (newdir_path target newdir) = false.
 Proof. exact all_or_nothing_partial. Qed.
@@ -78,22 +79,6 @@ Print Assumptions C18_all_or_nothing_partial_early.
 Theorem C18_all_or_nothing_refuted_3 : exists i, leftover_at i XFatal.
 Proof. exact all_or_nothing_refuted_3. Qed.
 Print Assumptions C18_all_or_nothing_refuted_3.
-
-(* (d) ConfirmDir inside localizeRoot fails: log.Panicf (found while building the check) *)
-Theorem C18_all_or_nothing_refuted_4 : exists i, leftover_at i XPanic.
-Proof. exact all_or_nothing_refuted_4. Qed.
-Print Assumptions C18_all_or_nothing_refuted_4.
-
-(* (e) helm: ConfirmDir inside copyChartHome fails (corpus/C18/helm-chart-home.json, file-system
-   call 25): log.Panicf, /new with a partial copy stays *)
-Theorem C18_all_or_nothing_refuted_5 :
-  fs_wf ex2_fs /\
-  exists_path ex2_fs ex_nd = false /\
-  snd (ex2_run (Some 25)) = OExn XPanic /\
-  (forall e, In e (w_trace (fst (ex2_run (Some 25)))) -> ev_op e = ORemoveAll -> ev_ok e = true) /\
-  exists_path (w_fs (fst (ex2_run (Some 25)))) ex_nd = true.
-Proof. exact leftover_5. Qed.
-Print Assumptions C18_all_or_nothing_refuted_5.
 
 (* "produces a copy whose build output is identical" is REFUTED on the faithful model without any
    fault (corpus/C18/helm-values-inside-home.json): helmCharts[0].valuesFile lies inside the local
